@@ -167,6 +167,40 @@ def run(ctx):
             m = model[base + idx].split()
             if m == ["bad-op"] or (m[0] == "1") != eq or (m[1] == "1" and not heq) or (m[2] == "1") != spec:
                 res.disagree("c20q", case, {"eq": eq, "hash_eq": heq, "spec": spec}, m)
+    # "the same record for the cache, for known-answer suppression": the containers that rely on identity
+    from zeroconf import DNSCache
+    from zeroconf._dns import DNSRRSet, DNSNsec
+
+    sub = recs[:: max(1, len(recs) // 160)]
+    near = []
+    for i in range(len(sub)):
+        for j in range(len(sub)):
+            near.append((sub[i], sub[j]))
+    for i in range(0, len(recs) - 1, 3):
+        for j in range(i, min(len(recs), i + 28)):
+            near.append((recs[i], recs[j]))
+            near.append((recs[j], recs[i]))
+    for a, b in near:
+        res.evaluations += 1
+        same = type(a) is type(b) and spec_ident(a) == spec_ident(b)
+        case = {"a": C.rec_line(a), "b": C.rec_line(b)}
+        cache = DNSCache()
+        cache.async_add_records([a])
+        found = cache.async_get_unique(b) is not None if not isinstance(b, DNSNsec) else cache.get(b) is not None
+        found_get = cache.get(b) is not None
+        if found != same or found_get != same:
+            res.violate("C20:cache-lookup:%s" % type(a).__name__,
+                        "a cached record is %sfound through an %s probe (async_get_unique=%s, get=%s)" % ("" if same else "not ", "identical" if same else "different", found, found_get), case)
+        cache.async_add_records([b])
+        n_name = len([r for r in cache.entries_with_name(a.name) if type(r) is type(a) and spec_ident(r) == spec_ident(a)])
+        if same and n_name != 1:
+            res.violate("C20:cache-duplicate:%s" % type(a).__name__, "adding the same record twice leaves %d copies in the cache" % n_name, case)
+        if same:
+            res.nontriv("cache/%s/%s" % (type(a).__name__, a.name != b.name))
+        sup = DNSRRSet([a]).suppresses(b)
+        want = same and a.ttl > b.ttl / 2
+        if sup != want:
+            res.violate("C20:rrset-suppression:%s" % type(a).__name__, "known-answer suppression says %s, identity and TTLs say %s" % (sup, want), case)
     # questions are never equal to records
     for q in qs[:20]:
         for r in recs[:40]:
